@@ -1224,6 +1224,13 @@ func genProgram(r *vh.Rng, maxDepth int, ext bool, avoid avoidSet, focus string,
 		switch {
 		case focus == "deepjump" && (small || r.Chance(3, 5)):
 			p = g.deepJump(1)
+		case focus == "constif" && (small || r.Chance(7, 10)):
+			if r.Chance(4, 5) {
+				p = g.constIf(1)
+			} else {
+				p = g.constFor(1)
+			}
+			g.usedExt = true
 		case focus == "tswitch" && (small || r.Chance(7, 10)):
 			p, _ = g.typedSwitch(1)
 			g.usedExt = true
